@@ -218,8 +218,12 @@ def decide(pid, tier, seed, mod, targets, results, opts, t_start):
         lines.append(f"KNOWN-FINDING: property={pid} {kf.get('what', o['id'])} [obligation {o['id']}]")
     if n_total == 0 and not errors:
         errors.append(("vacuity", "zero obligations generated"))
+    seen_v = set()
     for o in violations:
         import hashlib
+        if o["id"] in seen_v:
+            continue
+        seen_v.add(o["id"])
         rp = os.path.join(OUT, "out", "replay", f"{pid}-{hashlib.sha1(o['id'].encode()).hexdigest()[:10]}.json")
         with open(rp, "w") as f:
             json.dump({"property": pid, "obligation": o["id"], "kind": o["kind"], "goal": o["goal"], "function": o["function"],
